@@ -11,8 +11,8 @@ from typing import Iterable, Optional
 from .. import absint
 from ..core import Ctx, PropSpec
 from ..rules import (calls_in, cfg_of, cond_implies, construct, dominating_conditions, except_chain_order, is_call_to,
-                     kwarg, method_call, norm, origin)
-from ..srcmodel import AnalysisError, dotted, src, walk_no_defs
+                     kwarg, norm, origin)
+from ..srcmodel import AnalysisError, dotted, walk_no_defs
 
 API = 'kopf._cogs.clients.api'
 ERR = 'kopf._cogs.clients.errors'
@@ -128,6 +128,9 @@ def check_request(ctx: Ctx) -> None:
     paths = [p for p in absint.analyse(repo, f, absint.Config(effect=eff, raising=raising, inline=helpers), stmts=loop.body, env=env)
              if not _numeric_none(p)]
     ctx.count('paths', len(paths))
+    # the backoff of the attempt: the loop variable(s), or whatever plain local is slept (a `while` form of the loop)
+    targets = targets + sorted({e.kw['#0'].key for p in paths for e in p.effects('sleep') if e.kw.get('#0') is not None
+                                and e.kw['#0'].kind == 'sym' and e.kw['#0'].key.isidentifier()} - set(targets))
 
     def thrown(p) -> Optional[str]:
         r = [e for e in p.trace if e.label.startswith('raised:')]
@@ -320,6 +323,10 @@ def check_status_dispatch(ctx: Ctx) -> None:
 
 
 # ====================================================================================== R12.3: authentication
+def _mentions_field(node: ast.AST, attr: str) -> bool:
+    return any(isinstance(x, ast.Attribute) and x.attr == attr for x in ast.walk(node))
+
+
 def _is_authenticated(f) -> bool:
     g = f
     while g is not None:
@@ -432,11 +439,11 @@ def check_auth(ctx: Ctx) -> None:
     dels = gi.stmt_nodes(lambda x: sub_of(x, '_current', (ast.Delete,)))
     moves = gi.stmt_nodes(lambda x: sub_of(x, '_invalid', (ast.Assign, ast.AugAssign)) or
                           (isinstance(x, ast.Call) and isinstance(x.func, ast.Attribute) and x.func.attr in ('append', 'extend')
-                           and '_invalid' in src(x.func.value)))
+                           and _mentions_field(x.func.value, '_invalid')))
     ctx.require_sites('R12.3', 'Vault.invalidate: removal of the failed item from the current credentials', len(dels), 1, fi.loc())
     for d in dels:
         nd = gi.dominated([d], moves)
-        remembers = any('_current' in src(m.stmt) for m in moves)
+        remembers = any(_mentions_field(m.stmt, '_current') for m in moves)
         ctx.ob('R12.3', 'Vault.invalidate: the failed item is recorded in the invalidation history before it is removed from the current credentials',
                not nd and bool(moves) and remembers, loc=fi.loc(d.stmt), construct=construct(fi, 'order:remember<remove'))
     fu, gu = cfg_of(ctx, f'{CRED}.Vault._update_converted')
